@@ -16,28 +16,78 @@ TRUSTED_BASE = [
 ]
 
 # level / technique per property; the MANIFEST is generated from this table (tools/mkmanifest.py)
+TECH_NODE = "machine-checked proof in Coq 8.16.1 on a hand-written executable Gallina model + correspondence check (every API call of generated histories replayed through the extracted model from the implementation's own pre-state) + Go monitors on the real library for failing-input search"
+
 PROPS = {
-    "C01": dict(family="node", level="other", title="Agreement"),
-    "C02": dict(family="node", level="other", title="Decision certificate"),
-    "C03": dict(family="node", level="other", title="Non-equivocation and commit lock"),
-    "C04": dict(family="node", level="other", title="Quorum-gated progress"),
-    "C05": dict(family="node", level="other", title="One decision per height, quiescence, clean re-initialisation"),
-    "C06": dict(family="quorum", level="proof", title="Quorum arithmetic and primary rotation"),
-    "C07": dict(family="node", level="other", title="Anti-MEV phase discipline"),
-    "C08": dict(family="node", level="other", title="Fault-free synchronous runs decide in view 0"),
-    "C09": dict(family="node", level="other", title="Recovery liveness"),
-    "C10": dict(family="node", level="other", title="No lost wake-up"),
-    "C11": dict(family="node", level="other", title="Input hygiene"),
-    "C12": dict(family="node", level="other", title="A backup given every requested transaction answers"),
-    "C13": dict(family="node", level="other", title="Watch-only nodes are silent"),
-    "C14": dict(family="node", level="other", title="Clock-shift invariance"),
-    "C15": dict(family="node", level="other", title="Honest proposals are well formed"),
-    "C16": dict(family="node", level="other", title="Dynamic block time"),
-    "C17": dict(family="sim", level="other", title="The bundled simulation keeps extending its chain"),
-    "C18": dict(family="timer", level="other", title="Bundled timer"),
-    "C19": dict(family="ref", level="other", title="Reference payload/block/crypto code"),
-    "C20": dict(family="tla", level="proof", title="The shipped TLA+ models keep their invariants"),
+    "C01": dict(family="node", level="proof", title="Agreement",
+        level_text="Proved for every N and every behaviour of at most F keys: agreement follows from quorum certificates and one-signature-per-height (Properties/C01.v, quorum intersection by pigeonhole). The node-level premises are proved only in part (counting clause of the certificate, commit gate); the unconditional statement is false of the code (known findings D1f/D1fa: forks replayed on the real library).",
+        level_note="partial: composition theorem proved; premises 'every counted signature verifies' and 'one commit per height' are exercised by monitors on the real code, not proved"),
+    "C02": dict(family="node", level="proof", title="Decision certificate",
+        level_text="Proved for every reachable model state and script: the block (pre-block) is handed over only while M commits (pre-commits) of the current view are held, with all transactions, at most once per height. Not proved: that each counted signature verifies against that block (false of the code: D1, D1p, D2) and the 'is the proposal / extends the tip' clauses (exercised).",
+        level_note="partial: counting and at-most-once clauses proved on the whole model; signature validity is a known finding; remaining clauses exercised by monitors + correspondence"),
+    "C03": dict(family="node", level="other", title="Non-equivocation and commit lock",
+        level_text="No Coq theorem states this property yet. Decided by monitors on the real library over generated histories (own-message history per node and height) with the model tied to the code by the correspondence run.",
+        level_note="exploration with monitors; model-code correspondence; no theorem"),
+    "C04": dict(family="node", level="proof", title="Quorum-gated progress",
+        level_text="Proved for every reachable model state and script: a PrepareResponse is broadcast only with all transactions held and names the hash of the proposal in the primary's slot; Commit/PreCommit only with M current-view preparations including a request and all transactions. Not proved: 'verification callback accepted' and the M-ChangeView condition for entering a view (exercised).",
+        level_note="partial: response/commit/pre-commit gates proved on the whole model; view-entry and verification-accepted clauses exercised"),
+    "C05": dict(family="node", level="proof", title="One decision per height, quiescence, clean re-initialisation",
+        level_text="Proved: ProcessBlock only while undecided (at most one hand-over per height) and only recovery messages are broadcast after the decision, for every reachable state; timeouts, transactions and non-recovery payloads after the decision change nothing (every state). Not proved: the clean re-initialisation / early-payload clauses (exercised by monitors + correspondence).",
+        level_note="partial: decision-once and quiescence proved; re-initialisation clauses exercised"),
+    "C06": dict(family="quorum", level="proof", title="Quorum arithmetic and primary rotation",
+        level_text="Proved for every validator count N >= 1: F = (N-1)/3, M = N-F, any two quorums share more than F validators, a quorum never needs a faulty one, the primary is (h-v) mod N, in range, and over N consecutive views or heights every validator is primary exactly once; the node model uses exactly these expressions. The rotation clause fails across the uint32 wrap of the height (refuted with a witness: known finding D14).",
+        level_note="full proof for every N; tie: the real Context's N/F/M/GetPrimaryIndex compared with the extracted functions over a sweep of N, heights and views",
+        technique="machine-checked proof in Coq 8.16.1 (Quorum.v) + correspondence check of the extracted functions against the Go Context"),
+    "C07": dict(family="node", level="proof", title="Anti-MEV phase discipline",
+        level_text="Proved for every reachable model state and script: Commit at an anti-MEV height only after own PreCommit, M current-view pre-commits and a successful pre-block callback; the pre-block callback only with M pre-commits and at most once; the final block is built only after it; PreCommit only when enabled; a received PreCommit is not acted upon when disabled.",
+        level_note="proved on the whole model except 'signed only after' (the build gate is proved; signing follows building in makeCommit)"),
+    "C08": dict(family="node", level="other", title="Fault-free synchronous runs decide in view 0",
+        level_text="A statement about synchronous multi-node runs; no Coq theorem. Decided by running the real library in a synchronous scheduler with arbitrary in-round orders, duplicates and early deliveries (sync mode c08) with monitors; model tied by correspondence.",
+        level_note="exploration of synchronous schedules on the real code; no theorem"),
+    "C09": dict(family="node", level="other", title="Recovery liveness",
+        level_text="A liveness statement about multi-node runs; no Coq theorem. Decided by runs of the real library with silent nodes, partitions healed at arbitrary moments and restarts (sync modes c09s/c09p/c09r/c09x) with progress monitors; known finding D18.",
+        level_note="exploration on the real code; no theorem"),
+    "C10": dict(family="node", level="proof", title="No lost wake-up",
+        level_text="Proved over all histories of the model (Start, then any calls, any scripts under which the node is a non-watch-only validator): after every call an undecided node has the timer armed for exactly its height and view (timer as ghost of the history); a timeout for that epoch re-arms it; every arming names the current epoch. The non-negative-duration clause is false of the code at high views (known finding D10).",
+        level_note="proved except the duration sign (known finding D10)"),
+    "C11": dict(family="node", level="proof", title="Input hygiene",
+        level_text="Proved: every inadmissible class named by the property and re-delivery of stored response/commit/pre-commit/proposal leave the state unchanged up to LastSeenMessage and make no callback but watch-only queries (every state); no sequence of well-formed API calls panics the model (sizing invariant over all histories). Re-delivered ChangeView: known finding D15.",
+        level_note="proved on the model; Go panics at sites the model lacks are decided by the correspondence run"),
+    "C12": dict(family="node", level="other", title="A backup given every requested transaction answers",
+        level_text="No Coq theorem yet. Decided by a monitor on the real library (requested set per proposal, answer at the last supplied transaction) over generated histories and corpus scenarios; model tied by correspondence.",
+        level_note="exploration with monitors; no theorem"),
+    "C13": dict(family="node", level="proof", title="Watch-only nodes are silent",
+        level_text="Proved for every model state, API call and script: if the watch-only flag answers true whenever consulted (it is consulted only while the node is in the validator list) nothing is broadcast, signed or given pre-commit data.",
+        level_note="proved on the whole model (the 'others progress as with a silent validator' clause follows from emitting nothing)"),
+    "C14": dict(family="node", level="other", title="Clock-shift invariance",
+        level_text="No Coq theorem. Decided by executing every generated history twice on the real library with clocks differing by constant offsets (and at different wall-clock times) and comparing payloads and timer durations; model tied by correspondence (the model reads time only through the Now callback).",
+        level_note="differential execution on the real code; no theorem"),
+    "C15": dict(family="node", level="proof", title="Honest proposals are well formed",
+        level_text="Proved: every PrepareRequest broadcast in any reachable history carries the context's timestamp, nonce and transaction list for the node's epoch, with timestamp >= previous + increment (strictly greater without uint64 overflow); Fill takes exactly the pool's transactions, the truncated clock when larger and the nonce; the own header is built from the same context values.",
+        level_note="proved on the model in three theorems; the link Fill->broadcast within one call is by the model's sendPrepareRequest"),
+    "C16": dict(family="node", level="proof", title="Dynamic block time",
+        level_text="Proved: the subscription callback is used only when the extension is configured (every reachable state). The timing clauses are statements about synchronous runs, decided by monitors on runs of the real library (sync mode c16, corpus scenario 1013).",
+        level_note="partial: subscription clause proved; timing clauses exercised"),
+    "C17": dict(family="sim", level="proof", title="The bundled simulation keeps extending its chain",
+        level_text="Proved on a model of the simulation's driver loop whose shape (which event kinds are followed by the height check and Reset) is regenerated from internal/simulation on every run: for every event sequence the chain grows as often as the library decides; the loop without the check stalls at the first block (the defect repaired by fix D6). The progress of the real binary is observed by running it.",
+        level_note="theorem on a translated loop shape (tools/simshape.py) + running the shipped simulation binary; timing ('roughly the block interval') is observed, not proved",
+        technique="machine-checked proof in Coq 8.16.1 on a loop model regenerated from the Go source by a small translator + execution of the real simulation"),
+    "C18": dict(family="timer", level="proof", title="Bundled timer",
+        level_text="Proved on a state-machine model of timer/timer.go over an abstract runtime, for every sequence of Reset/Extend/advance/read operations: never early, reports the latest epoch, no stale expiry after a later reset, zero duration fires at once. The Go runtime's scheduling (goroutine, channel, time.Timer) is modelled by two bracketing models, not verified; 'within scheduling tolerance' is measured on the real timer.",
+        level_note="partial: logic proved on the model; runtime behaviour (real time.Timer, goroutine interleaving) is bracketed and exercised",
+        technique="machine-checked proof in Coq 8.16.1 on a hand-written model + correspondence check of operation sequences against the real timer (two bracketing models)"),
+    "C19": dict(family="ref", level="proof", title="Reference payload/block/crypto code",
+        level_text="Proved: the Merkle root over lists of equal length changes with any leaf or order change for every collision-free pair function; the duplicate-last-leaf collision across lengths is refuted with a witness for every hash function (known finding D11); SHA-256 model on the FIPS vector. Hash/codec/signature clauses are decided by differential execution of the Go reference code against the extracted models and by monitors (round trips, field sensitivity, malformed input); known finding D19.",
+        level_note="partial: Merkle structure proved; codec/hash/signature clauses are exercised on the real code (crypto primitives are outside what a Gallina model can carry)",
+        technique="machine-checked proof in Coq 8.16.1 (Merkle/SHA-256 models) + correspondence check with internal/merkle, internal/crypto, internal/consensus"),
+    "C20": dict(family="tla", level="proof", title="The shipped TLA+ models keep their invariants",
+        level_text="The shipped specifications are translated to Gallina on every run (tla2coq from SANY's XML); InvTwoBlocksAccepted is proved inductive on the generated dbft and anti-MEV models for EVERY duplicate-free RM (any N, any view bound); the dbftCV3 model violates it with the permitted fault set (witness checked by vm_compute: known finding D13). TypeOK and the fault-count invariant are decided for the shipped configurations (N=4) by TLC, cross-checked edge by edge against the generated Gallina Next.",
+        level_note="InvTwoBlocksAccepted proved unboundedly on the translated models; TypeOK/InvFaultNodesCount by explicit-state model checking of the shipped configurations (not a proof)",
+        technique="translator (TLA+ -> Gallina) + machine-checked proof in Coq 8.16.1 on the generated models; TLC for the finite configurations"),
 }
+for _k, _v in PROPS.items():
+    if _v["family"] == "node":
+        _v.setdefault("technique", TECH_NODE)
 
 
 def proof_status(pid):
